@@ -110,8 +110,13 @@ def run_from(kind, ty):
 
 
 def worker(p):
+    from . import contracts as K
     prog = H.get_program()
     S.BITS_MODE[:] = ['uf', 128]
+    # digit counting (should a refactoring use it here) by its contract, open-ended beyond 60 digits
+    K.DIGITS_MAX[0] = 60
+    K.OPEN_ENDED[0] = True
+    E.DEFAULT_OVERRIDES[:] = K.DIGIT_CONTRACTS
     k = p['kind']
     if k == 'to_prim':
         run = run_to_prim(p['self'], p['target'], p['scale'])
